@@ -45,9 +45,10 @@ var controlTable = []control{
 	// C03
 	{"C03", "json-quoted-marshaltext", "version/version.go", "return []byte(version.String()), nil", "return []byte(\"\\\"\" + version.String() + \"\\\"\"), nil", "C03-CODEC"},
 	{"C03", "epoch-not-reset", "version/version.go", "result.Epoch = 0\n\tresult.Revision = \"\"\n", "result.Revision = \"\"\n", "C03-RESET"},
-	{"C03", "empty-upstream-accepted", "version/version.go", "if len(result.Version) == 0 {\n\t\treturn fmt.Errorf(\"version number is empty\")\n\t}\n\tif !unicode.IsDigit(rune(result.Version[0])) {", "if len(result.Version) > 0 && !unicode.IsDigit(rune(result.Version[0])) {", "C03-GUARDS"},
-	{"C03", "embedded-space-test-removed", "version/version.go", "if strings.IndexFunc(trimmed, unicode.IsSpace) != -1 {\n\t\treturn fmt.Errorf(\"version string has embedded spaces\")\n\t}", "", "C03-GUARDS"},
-	{"C03", "epoch-at-last-colon", "version/version.go", "colon := strings.Index(trimmed, \":\")", "colon := strings.LastIndex(trimmed, \":\")", "C03-GUARDS"},
+	{"C03", "empty-upstream-accepted", "version/version.go", "if len(result.Version) == 0 {\n\t\treturn fmt.Errorf(\"version number is empty\")\n\t}\n\tif !unicode.IsDigit(rune(result.Version[0])) {", "if len(result.Version) > 0 && !unicode.IsDigit(rune(result.Version[0])) {", "C03-TABLE"},
+	// (removing the embedded-white-space test of the version parser is an equivalent mutant: the alphabet tests and the
+	// epoch's integer parse reject every such string anyway; it is not a control)
+	{"C03", "epoch-at-last-colon", "version/version.go", "colon := strings.Index(trimmed, \":\")", "colon := strings.LastIndex(trimmed, \":\")", "C03-TABLE"},
 	{"C03", "underscore-admitted", "version/version.go", "c != '.' && c != '-' && c != '+' && c != '~' && c != ':'", "c != '.' && c != '-' && c != '+' && c != '~' && c != ':' && c != '_'", "C03-ALPHA"},
 	{"C03", "ambiguous-render-again", "version/version.go", "if v.Epoch > 0 || strings.Contains(v.Version, \":\") {", "if v.Epoch > 0 {", "C03-RENDER"},
 	{"C03", "epoch-64-bits-again", "version/version.go", "strconv.ParseInt(trimmed[:colon], 10, strconv.IntSize)", "strconv.ParseInt(trimmed[:colon], 10, 64)", "C03-EPOCHWIDTH"},
